@@ -254,3 +254,34 @@ def register(reg):
       "Engine.schema and the stray-column check after every successful bundle, every undo/redo and every rollback.",
       "hypotheses of the pair theorems (MetaUnique, NoReverseRefTo, ParentIdIntTyped) are explicit.",
       "Lean 4 theorems (schema/metadata pairing invariant) + per-bundle evaluation of the proved decision procedure + oracle")
+
+  reg("C22", "proof",
+      "usertypes convert/do_convert/is_right_type of all 16 column types are modelled line by line over a universe of Python "
+      "values (GristModel/PyVal.lean); every raising primitive is explicit, so totality is by construction (convert_total). "
+      "Proved for all values and types: convert_range_partial (every type but Blob; convert_range_false: Blob().convert(5)=5), "
+      "convert_idem_partial (idempotent unless do_convert raised on a non-string whose alt-text is itself convertible, or on "
+      "three explicit degenerate ChoiceList/RefList inputs; each exclusion has a proved counterexample that is replayed on the "
+      "real code every run), and unconditional corollaries: Text/Choice/Any/Blob on everything, every type on strings, Id/Ref "
+      "when the alt-text is non-empty, Int and Bool on all numbers (given float()/repr() round-trip laws). Differentially "
+      "validated only: the model against usertypes on ~7k (quick) / ~77k (thorough) adversarial and random values per run; "
+      "hostile objects (raising __eq__/__iter__/__float__, cyclic/5000-deep containers) are searched on the real code only.",
+      "Python/library primitives are parameters computed by the harness with the real functions: float(str), float(big int), "
+      "repr(float), %.15g, json.loads, iso8601 (moment.parse_iso*), RecordList.from_repr, bytes.decode/float(bytes), "
+      "str()/repr() of compound objects, date/datetime stamps; FloatLaws validated each run on all floats/ints seen; "
+      "GRIST_TRUTHY_VALUES/GRIST_FALSY_VALUES unset; unicode lower() assumption checked exhaustively; 7 known findings "
+      "(known_findings.json).",
+      "Lean 4 case analysis per column type (fixpoint lemmas for do_convert results) + differential correspondence + direct oracle")
+
+  reg("C24", "proof",
+      "objtypes.encode_object/decode_object/RaisedException.encode_args/decode_args and the exact-type requirement of "
+      "marshal.dumps(x, 2) are modelled (GristModel/PyVal.lean: encode, decode, MarshalSafe). Proved by mutual structural "
+      "induction over all finite values: encode_marshal_safe_partial (safe unless an encodable dict has a str-SUBCLASS key; "
+      "encode_marshal_safe_false is the proved counterexample {S('k'): 1}) and encode_decode_encode (round trip, given that "
+      "dates are in range and moment.ts_to_dt decodes each encodable datetime to the same stamp/zone; "
+      "encode_decode_encode_false: datetime.max). Differentially validated only: model vs real encode/decode on ~4k/70k "
+      "values and ~1k/20k malformed structures; engine level: 29 hostile formulas through main.run on an in-memory "
+      "sandbox.Sandbox (every reply must be a DATA message). Recursion depth and cyclic containers: real code only.",
+      "transport = marshal version 2 (sandbox.py); Node side = app/common/marshal.ts; parameters: repr() of unencodable "
+      "objects, bytes.decode, moment.dt_to_ts / zone name of each datetime, moment.ts_to_dt on decode, moment.ts_to_date for "
+      "non-integral stamps; row ids are ints; 3 known findings (known_findings.json).",
+      "Lean 4 mutual structural induction over the value universe + differential correspondence + direct oracle + engine-level search")
